@@ -432,6 +432,7 @@ typedef Outcome (*ScenFn)(const sim::Plan&, int, const sc::Params&);
 Outcome scen_objfn(const sim::Plan& p, int threads, const sc::Params& sp);
 Outcome scen_norm(const sim::Plan& p, int threads, const sc::Params& sp);
 Outcome scen_scatter(const sim::Plan& p, int threads, const sc::Params& sp);
+Outcome scen_array(const sim::Plan& p, int threads, const sc::Params& sp);
 
 inline void
 compare(const std::string& scen, const Outcome& ref, const Outcome& par, bool exact, int threads)
@@ -520,6 +521,11 @@ run_scenario(const sim::Plan& p, const std::string& scen, sim::Result& res)
     {
       fn = scen_scatter;
       exact = true; // every output bin is written by one iteration; cached floats equal recomputed ones
+    }
+  else if (scen == "array")
+    {
+      fn = scen_array;
+      exact = true;
     }
   else
     return;
